@@ -292,6 +292,36 @@ pub fn programs(ctx: &Ctx) {
     }
 }
 
+/// poses and long payloads, encoded independently: every pose of the catalogue for cloud and image,
+/// image and mask payloads of 12 long lengths (multi-page, around powers of two, up to 1 MiB)
+pub fn payloads(ctx: &Ctx) {
+    const LENS: [usize; 12] = [1019, 1020, 1021, 2040, 4095, 8193, 65535, 65536, 65537, 131_073, 300_000, 1_048_577];
+    let poses = crate::cat::poses();
+    let k = ctx.pick("pose", poses.len());
+    let li = ctx.pick("payload-length", LENS.len());
+    let mut scene = crate::scenes::scene(5);
+    scene.clouds.truncate(1);
+    scene.clouds[0].meta.pose = Some(poses[k].clone());
+    scene.images.truncate(2);
+    for (j, img) in scene.images.iter_mut().enumerate() {
+        img.pose = Some(poses[(k + 9 + j) % poses.len()].clone());
+        for rep in [&mut img.visual, &mut img.projection].into_iter().flatten() {
+            if j == 0 {
+                rep.blob.data = crate::harness::pattern(LENS[li] as u64, LENS[li]);
+                rep.blob.length = LENS[li] as u64;
+            } else if let Some(mk) = &mut rep.mask {
+                mk.data = crate::harness::pattern(7 + LENS[li] as u64, LENS[(li + 5) % LENS.len()]);
+                mk.length = mk.data.len() as u64;
+            }
+        }
+    }
+    let Some((enc, _)) = model_file(ctx, &scene, Knobs::NONE) else { return };
+    ctx.describe(|| format!("copy of scene 5 (one cloud, two images) with pose #{k} and payloads of {} bytes", LENS[li]));
+    if judge_copy(ctx, &enc.bytes, &|| format!("original: scene 5 with pose #{k}, image payload of {} bytes", LENS[li])) {
+        ctx.nontrivial();
+    }
+}
+
 /// section alignment in the copy: a first cloud of n byte-sized points moves the second cloud's
 /// section through all 255 aligned residues of the page payload
 pub fn align(ctx: &Ctx) {
